@@ -245,3 +245,31 @@ Qed.
 Example pad_length_ex :
   finish (mkStyle None None None None None (Some (3, SStr [48])) None None None) false [55] = [48; 48; 55].
 Proof. reflexivity. Qed.
+
+(* --------------------------------------------------------------------------- extends, as repaired *)
+(* F62: a style extending an undefined style is the decimal style completed... i.e. its own descriptors, completed
+   by those of decimal (CSS Counter Styles 3, 3.1.7: "treated as if it was extending the decimal counter style") *)
+Theorem extends_unknown_is_extends_decimal S n c t fx d :
+  lookup n S = Some c -> c_system c = Some (mkSys true t fx) -> lookup t S = None ->
+  lookup "decimal" S = Some d -> fst (fst (sys_of d)) = false ->
+  resolve S (CName n) None = (ResSome (merge (set_system c (c_system d)) d), None).
+Proof.
+  intros Hn Hsys Ht Hd Hplain. unfold resolve. rewrite Hn. cbn match.
+  unfold sys_of at 1. rewrite Hsys. cbn [s_ext s_name s_fixed].
+  unfold loop_fuel. cbn [resolve_loop negb]. unfold has. rewrite Ht, Hd. cbn match. rewrite Hd.
+  assert (E : sys_of (set_system c (c_system d)) = sys_of d) by reflexivity. rewrite E.
+  destruct (sys_of d) as [[ext1 sys1] fx1] eqn:Ed. cbn [fst] in Hplain. subst ext1. cbn [andb].
+  cbn [negb]. reflexivity.
+Qed.
+
+(* F61: resolving a name adds this name, and nothing else, to the list of styles already tried as fallbacks
+   (the styles met on the extends chain have their own list) *)
+Theorem resolve_adds_only_the_name S cn l r p :
+  resolve S cn (Some l) = (r, p) -> p = Some l \/ p = Some (l ++ [cn]).
+Proof.
+  unfold resolve. destruct cn as [n|system args|t]; try (intros [= <- <-]; left; reflexivity).
+  destruct (lookup n S) as [c0|]; [|intros [= <- <-]; left; reflexivity].
+  destruct (mem_cname (CName n) l); [intros [= <- <-]; left; reflexivity|].
+  destruct (sys_of c0) as [[ext sys] fx].
+  destruct (resolve_loop (loop_fuel S) S c0 ext sys [CName n]); intros [= <- <-]; [left|right]; reflexivity.
+Qed.
